@@ -858,6 +858,11 @@ pub fn parse_manifest(buf: &[u8]) -> bool {
     VersionChangeManifest::try_from(buf).is_ok()
 }
 
+/// The byte encoding of an internal key.
+pub fn ikey_bytes(k: (&[u8], u64, bool)) -> Vec<u8> {
+    Vec::from(&InternalKey::new(k.0.to_vec(), k.1, op(k.2)))
+}
+
 /// Internal key byte encoding round trip: (user key, seq, is_put) -> bytes -> parsed triple.
 pub fn ikey_roundtrip(k: (&[u8], u64, bool)) -> Option<(Vec<u8>, u64, bool)> {
     let key = InternalKey::new(k.0.to_vec(), k.1, op(k.2));
@@ -974,6 +979,33 @@ pub fn block_iter_cursor(restart_interval: usize, entries: &[(Vec<u8>, u64, bool
             _ => return None,
         }
         out.push(if it.is_valid() { it.current().map(|(k, v)| (k.get_user_key().to_vec(), k.get_sequence_number(), v[0])) } else { None });
+    }
+    Some(out)
+}
+
+/// Entries (user key, sequence, is_put, value) are written with the real `BlockBuilder` - a fresh one, or (`reuse`) one that already
+/// produced another block and was `reset` -, parsed by the real `BlockReader`; the entries its iterator yields from front to back.
+pub fn block_roundtrip(restart_interval: usize, entries: &[(Vec<u8>, u64, bool, Vec<u8>)], reuse: bool) -> Option<Vec<(Vec<u8>, u64, bool, Vec<u8>)>> {
+    let mut b: crate::tables::BlockBuilderForVerif = crate::tables::new_block_builder_for_verif(restart_interval);
+    if reuse {
+        b.add_entry(std::rc::Rc::new(InternalKey::new(b"earlier-block".to_vec(), 7, op(true))), b"earlier value");
+        b.add_entry(std::rc::Rc::new(InternalKey::new(b"earlier-block".to_vec(), 3, op(false))), b"");
+        let _ = b.finalize();
+        b.reset();
+    }
+    for e in entries {
+        b.add_entry(std::rc::Rc::new(InternalKey::new(e.0.clone(), e.1, op(e.2))), &e.3);
+    }
+    let reader: BlockReader<InternalKey> = BlockReader::new(b.finalize()).ok()?;
+    let mut it = reader.iter();
+    let mut out = vec![];
+    it.seek_to_first().ok()?;
+    while it.is_valid() {
+        let (k, v) = it.current()?;
+        out.push((k.get_user_key().to_vec(), k.get_sequence_number(), k.get_operation() == Operation::Put, v.clone()));
+        if it.next().is_none() {
+            break;
+        }
     }
     Some(out)
 }
